@@ -66,7 +66,10 @@ class C03(IdProp):
         before = GG.snapshot(gr)
         with TopoRecorder() as rec:
             try:
-                est = identify_outcomes(gr, {GG.V(v) for v in X}, {GG.V(v) for v in Y}, {GG.V(v) for v in Z})
+                import zlib
+                h = zlib.crc32(repr((g, X, Y, Z)).encode())
+                one = lambda vs, bit: GG.V(vs[0]) if (len(vs) == 1 and (h >> bit) % 2) else {GG.V(v) for v in vs}   # noqa: E731  (Variable | set[Variable])
+                est = identify_outcomes(gr, one(X, 0) if X else set(), one(Y, 1), one(Z, 2))
                 code, exc = (1 if est is None else 0), None
             except Exception as ex:  # noqa: BLE001
                 est, exc = None, type(ex).__name__
